@@ -1,3 +1,23 @@
-From MW Require Import Num.
-Theorem placeholder : True. Proof. exact I. Qed.
-Print Assumptions placeholder.
+(*  C15 — The Simulator reports what the public API would have produced.
+   
+    PROVED: the simulator's Radius class selects its neighbours from a cache of distances; when the cache was
+    computed with the bandit's own metric (what the repaired code guarantees, fix D12: one cache per metric) the
+    selection IS the library's neighbourhood, for every radius, history and query.
+    ..._partial: this is the only part of the simulator protocol carried by the model. The offline / online
+    drivers, the shared generator between the simulator classes and the original bandit, and the expectations
+    bookkeeping are checked on every run by the independent public-API replay (fit / predict / predict_expectations
+    / partial_fit on a deep copy); the online protocol of the neighbourhood classes is refuted on the code
+    (finding D13). *)
+From Coq Require Import List ZArith Bool Arith QArith Qcanon Permutation.
+From MW Require Import Num Assoc AssocFacts Rng Par CF CFInv CFClean CFForget CFSpec Matrix Lin Warm WarmInv Nbr NbrFacts NbrIndep LshFacts Clu Tree CellFacts Mab FacadeCF FacadeArms MoreFacts NumLaws CFAlg Sim Extra QcInst.
+Import ListNotations.
+
+Theorem C15_simulator_radius_selection_refines_library_partial :
+  forall (R A : Type) (N : Num R) (G : Type) (s : (@nbr R A G)) (r : R) (row : list R) (orc : list nat),
+  n_kind s = NRadius r ->
+  neighborhood N s row orc =
+  Some (sim_radius_select N (map (fun c : list R => distance N (n_metric s) c row) (n_cx s)) r).
+Proof. exact @sim_radius_refines_library. Qed.
+Print Assumptions C15_simulator_radius_selection_refines_library_partial.
+
+
